@@ -114,6 +114,9 @@ func structKey(n *types.Named, st *types.Struct) string {
 	if n != nil {
 		o := n.Obj()
 		if o.Pkg() != nil {
+			if strings.Contains(o.Pkg().Path(), "internal/") && !strings.HasPrefix(o.Pkg().Path(), modPath) {
+				return o.Pkg().Path() + "." + o.Name()
+			}
 			return o.Pkg().Name() + "." + o.Name()
 		}
 		return o.Name()
